@@ -1,4 +1,460 @@
-import EE.Model.Program
+import EE.Lemmas.Pratt
+import EE.Props.C05
+/-! # C02 — operators group exactly by the documented precedence and associativity
+
+`Spec/Cst.lean` states the documented rule: an expression *as written* is a `CST` (parentheses
+explicit); it is `Canon` when it carries every pair of parentheses the table requires, i.e. an
+unparenthesised operand of an infix operator is itself an infix expression only if its operator
+binds tighter, or equally tight on the side the level associates to; prefix operators take a
+primary, postfix operators a token-level expression; the condition of `c ? a : b` is an operator
+chain, its branches are whole expressions.  The theorems:
+
+* `groups_as_written` — for **every** canonical expression, of any size and nesting within the
+  parser's `MAX_DEPTH`, over **any** operator table satisfying `TableOK` (so also tables extended
+  by `register_*`), parsing its tokens returns exactly the tree it denotes.
+* `canonical_reading_unique` — two canonical expressions with the same tokens denote the same tree.
+* `chain_has_canonical_form` — every sequence `p₀ o₁ p₁ … oₙ pₙ` of operands and (optionally
+  negated) infix operators *is* the token sequence of a canonical expression, so the first theorem
+  speaks about every operator sequence, not just about those somebody thought of.
+* the clause-by-clause corollaries of the property text, and `builtin_table_ok`. -/
 namespace EE.Props.C02
-theorem placeholder : True := trivial
+open EE EE.Spec EE.Spec.CST
+
+/-- The nesting of `c` is within the parser's limit `lim` (`MAX_DEPTH`). -/
+def Fits (lim : Nat) (c : CST) : Prop := c.nest + 1 ≤ lim ∧ c.strip.height ≤ lim
+
+theorem tableOK_pos {regs : Regs} (tb : TableOK regs) : RegsPos regs := tb.pos
+
+/-- **Main theorem.** -/
+theorem groups_as_written (regs : Regs) (tb : TableOK regs) (lim : Nat) (c : CST) (hc : Canon regs c) (hf : Fits lim c) :
+    parseTokens regs lim c.flatten = .ok c.strip := by
+  obtain ⟨hn, hh⟩ := hf
+  have hl : 1 ≤ lim := by omega
+  have m := main tb lim c 1 hc (by omega) hh
+  have hp := top_of_M (d := 0) tb hc (by omega) m [] (follow_nil regs)
+  rw [List.append_nil] at hp
+  obtain ⟨t, ts, hfl, _⟩ := flatten_start c
+  have hfuel := PExpr.at_fuel hl tb.pos hp (4 * c.flatten.length + 7) (Nat.le_refl _)
+  unfold parseTokens parseFuel
+  rw [hfl] at hfuel ⊢
+  simp only [parseStmts, hfuel, Res.bind_ok]
+
+/-- The statement loop: canonical expressions separated by `;`. -/
+def flattenProg : List CST → List Tok
+  | [] => []
+  | [c] => c.flatten
+  | c :: cs => c.flatten ++ (.semi :: flattenProg cs)
+
+theorem stmts_as_written (regs : Regs) (tb : TableOK regs) (lim : Nat) (hl : 1 ≤ lim) : ∀ (cs : List CST),
+    (∀ c ∈ cs, Canon regs c ∧ Fits lim c) → ∀ fuel, 4 * (flattenProg cs).length + 8 ≤ fuel →
+    parseStmts regs lim fuel (flattenProg cs) = .ok (cs.map CST.strip, AST.heightList (cs.map CST.strip))
+  | [], _, fuel, hf => by
+    obtain ⟨k, rfl⟩ : ∃ k, fuel = k + 1 := ⟨fuel - 1, by omega⟩
+    simp [flattenProg, parseStmts, AST.heightList]
+  | [c], h, fuel, hf => by
+    obtain ⟨hc, hn, hh⟩ := h c (by simp)
+    obtain ⟨k, rfl⟩ : ∃ k, fuel = k + 1 := ⟨fuel - 1, by omega⟩
+    have m := main tb lim c 1 hc (by omega) hh
+    have hp := top_of_M (d := 0) tb hc (by omega) m [] (follow_nil regs)
+    rw [List.append_nil] at hp
+    obtain ⟨t, ts, hfl, _⟩ := flatten_start c
+    simp only [flattenProg] at hf ⊢
+    have hfuel := PExpr.at_fuel hl tb.pos hp k (by omega)
+    rw [hfl] at hfuel hf ⊢
+    obtain ⟨k2, rfl⟩ : ∃ k2, k = k2 + 1 := ⟨k - 1, by simp at hf; omega⟩
+    simp only [parseStmts, hfuel, Res.bind_ok]
+    simp [parseStmts, AST.heightList]
+  | c :: c2 :: cs, h, fuel, hf => by
+    obtain ⟨hc, hn, hh⟩ := h c (by simp)
+    obtain ⟨k, rfl⟩ : ∃ k, fuel = k + 1 := ⟨fuel - 1, by omega⟩
+    have m := main tb lim c 1 hc (by omega) hh
+    have hp := top_of_M (d := 0) tb hc (by omega) m (.semi :: flattenProg (c2 :: cs)) (follow_semi regs _)
+    obtain ⟨t, ts, hfl, _⟩ := flatten_start c
+    simp only [flattenProg] at hf ⊢
+    have hfuel := PExpr.at_fuel hl tb.pos hp k (by omega)
+    have ih := stmts_as_written regs tb lim hl (c2 :: cs) (fun x hx => h x (by simp [hx])) k (by simp at hf ⊢; omega)
+    rw [hfl] at hfuel hf ⊢
+    simp only [List.cons_append] at hfuel ⊢
+    simp only [parseStmts, hfuel, Res.bind_ok]
+    rw [ih]
+    simp [AST.heightList]
+
+/-- A program of several statements parses to the statement chain of their trees. -/
+theorem program_as_written (regs : Regs) (tb : TableOK regs) (lim : Nat) (hl : 1 ≤ lim) (cs : List CST)
+    (h : ∀ c ∈ cs, Canon regs c ∧ Fits lim c) (hh : AST.heightList (cs.map CST.strip) + 1 ≤ lim) :
+    parseTokens regs lim (flattenProg cs) = .ok (programTree (cs.map CST.strip)) := by
+  unfold parseTokens parseFuel
+  rw [stmts_as_written regs tb lim hl cs h _ (Nat.le_refl _)]
+  simp only [Res.bind_ok]
+  match cs, hh with
+  | [], hh => rw [node_fits hh]; rfl
+  | [c], _ => simp [programTree]
+  | c :: c2 :: cs, hh => rw [node_fits hh]; rfl
+
+/-- Two canonical ways of writing the same token sequence denote the same tree: the table leaves
+no choice. -/
+theorem canonical_reading_unique (regs : Regs) (tb : TableOK regs) (lim : Nat) (c₁ c₂ : CST)
+    (h₁ : Canon regs c₁) (h₂ : Canon regs c₂) (f₁ : Fits lim c₁) (f₂ : Fits lim c₂) (h : c₁.flatten = c₂.flatten) :
+    c₁.strip = c₂.strip := by
+  have e₁ := groups_as_written regs tb lim c₁ h₁ f₁
+  have e₂ := groups_as_written regs tb lim c₂ h₂ f₂
+  rw [h, e₂] at e₁
+  injection e₁ with e
+  exact e.symm
+
+
+/-- From source text: if the text tokenizes to the tokens of a canonical expression, `parse_expression`
+returns the tree it denotes. -/
+theorem parse_groups_as_written (regs : Regs) (tb : TableOK regs) (s : Text) (sts : List SpTok) (c : CST)
+    (ht : tokenize regs s = .ok sts) (hfl : sts.map (·.tok) = c.flatten) (hc : Canon regs c) (hf : Fits maxDepth c) :
+    parseProgram regs s = .ok c.strip := by
+  unfold parseProgram
+  rw [ht]; simp only [Res.bind_ok]
+  rw [hfl]; exact groups_as_written regs tb maxDepth c hc hf
+
+/-! ## the built-in table -/
+
+theorem alookup_mem {β : Type} {n : Name} {c : β} : ∀ {l : List (Name × β)}, alookup n l = some c → (n, c) ∈ l
+  | [], h => by simp at h
+  | (k, v) :: xs, h => by
+    rw [alookup_cons] at h
+    by_cases e : k = n
+    · simp only [e, if_true, Option.some.injEq] at h; subst h; subst e; simp
+    · simp only [e, if_false] at h; simp [alookup_mem h]
+
+theorem isInfix_mem {regs : Regs} {o : Name} (h : regs.isInfix o = true) :
+    ∃ c, (o, c) ∈ regs.inf ∧ Regs.prec regs o = c.prec ∧ Regs.isRight regs o = c.right := by
+  unfold Regs.isInfix at h
+  cases hc : alookup o regs.inf with
+  | none => simp [hc] at h
+  | some c => exact ⟨c, alookup_mem hc, by simp [Regs.prec, hc], by simp [Regs.isRight, hc]⟩
+
+/-- The regenerated built-in operator table satisfies every assumption of the theorems above. -/
+theorem builtin_table_ok : TableOK Regs.builtin where
+  pos := EE.Props.C05.builtin_pos
+  assoc := by
+    intro o o' h h' he
+    obtain ⟨c, hm, hp, hr⟩ := isInfix_mem h
+    obtain ⟨c', hm', hp', hr'⟩ := isInfix_mem h'
+    have hall : ∀ x ∈ Regs.builtin.inf, ∀ y ∈ Regs.builtin.inf, x.2.prec = y.2.prec → x.2.right = y.2.right := by decide
+    rw [hr, hr']; exact hall _ hm _ hm' (by rw [← hp, ← hp', he])
+  infixNotPostfix := by
+    intro o h
+    obtain ⟨c, hm, _, _⟩ := isInfix_mem h
+    have hall : ∀ x ∈ Regs.builtin.inf, Regs.builtin.isPostfix x.1 = false := by decide
+    exact hall _ hm
+  q := by decide
+  colon := by decide
+  notOp := by decide
+
+theorem groups_as_written_builtin (c : CST) (hc : Canon Regs.builtin c) (hf : Fits maxDepth c) :
+    parseTokens Regs.builtin maxDepth c.flatten = .ok c.strip :=
+  groups_as_written _ builtin_table_ok _ c hc hf
+
+/-! ## every operator sequence has a canonical reading
+
+`attach c nt o p` extends the canonical expression `c` on the right by `o p` (`not o p` if `nt`):
+the new operator goes down the right spine as long as it binds tighter than the operator there (or
+equally tight at a right-to-left level). -/
+
+def attach (regs : Regs) : CST → Bool → Name → CST → CST
+  | .bin nt' o' l r, nt, o, p =>
+    if Regs.prec regs o' < Regs.prec regs o ∨ (Regs.prec regs o = Regs.prec regs o' ∧ Regs.isRight regs o' = true)
+    then .bin nt' o' l (attach regs r nt o p) else .bin nt o (.bin nt' o' l r) p
+  | c, nt, o, p => .bin nt o c p
+
+theorem attach_flatten (regs : Regs) : ∀ (c : CST) (nt : Bool) (o : Name) (p : CST),
+    (attach regs c nt o p).flatten = c.flatten ++ (opToks nt o ++ p.flatten)
+  | .bin nt' o' l r, nt, o, p => by
+    unfold attach; split
+    · simp only [CST.flatten, attach_flatten regs r nt o p, List.append_assoc]
+    · simp only [CST.flatten, List.append_assoc]
+  | .atom _, _, _, _ | .paren _, _, _, _ | .unary _ _, _, _, _ | .postfix _ _, _, _, _ | .call _ _, _, _, _
+  | .list _, _, _, _ | .map _, _, _, _ | .tern _ _ _, _, _, _ => by simp [attach, CST.flatten]
+
+theorem attach_root (regs : Regs) (c : CST) (nt : Bool) (o : Name) (p : CST) :
+    (attach regs c nt o p).root? = some o ∨ ((attach regs c nt o p).root? = c.root? ∧ ∃ o', c.root? = some o' ∧
+      (Regs.prec regs o' < Regs.prec regs o ∨ (Regs.prec regs o = Regs.prec regs o' ∧ Regs.isRight regs o' = true))) := by
+  cases c with
+  | bin nt' o' l r =>
+    unfold attach; split
+    · rename_i h; exact Or.inr ⟨rfl, o', rfl, h⟩
+    · exact Or.inl rfl
+  | _ => exact Or.inl rfl
+
+theorem attach_not_tern (regs : Regs) (c : CST) (nt : Bool) (o : Name) (p : CST) : (attach regs c nt o p).isTern = false := by
+  cases c with
+  | bin nt' o' l r => unfold attach; split <;> rfl
+  | _ => rfl
+
+theorem attach_canon (regs : Regs) (tb : TableOK regs) : ∀ (c : CST) (nt : Bool) (o : Name) (p : CST),
+    Canon regs c → c.isTern = false → regs.isInfix o = true → Canon regs p → p.isPrimary = true →
+    Canon regs (attach regs c nt o p)
+  | .bin nt' o' l r, nt, o, p, hc, _, hinf, hp, hpp => by
+    obtain ⟨hinf', hl, hr, hlt, hrt, hL, hR⟩ := hc
+    have hps := primary_shape hpp
+    unfold attach; split
+    · rename_i hcond
+      refine ⟨hinf', hl, attach_canon regs tb r nt o p hr hrt hinf hp hpp, hlt, attach_not_tern regs r nt o p, hL, ?_⟩
+      intro o'' ho''
+      rcases attach_root regs r nt o p with h1 | ⟨h1, _⟩
+      · rw [h1] at ho''; cases ho''
+        unfold okRight
+        rcases hcond with h | ⟨h, h2⟩
+        · exact Or.inl h
+        · exact Or.inr ⟨h, h2⟩
+      · rw [h1] at ho''; exact hR o'' ho''
+    · rename_i hcond
+      refine ⟨hinf, ⟨hinf', hl, hr, hlt, hrt, hL, hR⟩, hp, rfl, hps.2.2.1, ?_, ?_⟩
+      · intro o'' ho''
+        simp only [root?, Option.some.injEq] at ho''; subst ho''
+        unfold okLeft
+        rcases Int.lt_trichotomy (Regs.prec regs o) (Regs.prec regs o') with h | h | h
+        · exact Or.inl h
+        · refine Or.inr ⟨h.symm, ?_⟩
+          have hne : ¬ Regs.isRight regs o' = true := fun hr' => hcond (Or.inr ⟨h, hr'⟩)
+          rw [tb.assoc o o' hinf hinf' h]
+          simpa using hne
+        · exact absurd (Or.inl h) hcond
+      · intro o'' ho''; rw [hps.2.2.2] at ho''; cases ho''
+  | .atom a, nt, o, p, hc, _, hinf, hp, hpp | .paren a, nt, o, p, hc, _, hinf, hp, hpp | .unary _ a, nt, o, p, hc, _, hinf, hp, hpp
+  | .postfix a _, nt, o, p, hc, _, hinf, hp, hpp | .call _ a, nt, o, p, hc, _, hinf, hp, hpp
+  | .list a, nt, o, p, hc, _, hinf, hp, hpp | .map a, nt, o, p, hc, _, hinf, hp, hpp => by
+    have hps := primary_shape hpp
+    exact ⟨hinf, hc, hp, rfl, hps.2.2.1, fun o' h => by simp [root?] at h, fun o' h => by rw [hps.2.2.2] at h; cases h⟩
+  | .tern _ _ _, _, _, _, _, ht, _, _, _ => by simp [isTern] at ht
+
+/-- A chain `p₀ (not)? o₁ p₁ … (not)? oₙ pₙ` read left to right. -/
+def canonize (regs : Regs) (p₀ : CST) : List (Bool × Name × CST) → CST
+  | [] => p₀
+  | (nt, o, p) :: rest => canonize regs (attach regs p₀ nt o p) rest
+
+def chainToks (p₀ : CST) (ops : List (Bool × Name × CST)) : List Tok :=
+  p₀.flatten ++ (ops.map fun (nt, o, p) => opToks nt o ++ p.flatten).flatten
+
+theorem canonize_spec (regs : Regs) (tb : TableOK regs) : ∀ (ops : List (Bool × Name × CST)) (c₀ : CST),
+    Canon regs c₀ → c₀.isTern = false → (∀ x ∈ ops, regs.isInfix x.2.1 = true ∧ Canon regs x.2.2 ∧ x.2.2.isPrimary = true) →
+    Canon regs (canonize regs c₀ ops) ∧ (canonize regs c₀ ops).isTern = false ∧
+    (canonize regs c₀ ops).flatten = chainToks c₀ ops
+  | [], c₀, hc, ht, _ => ⟨hc, ht, by simp [canonize, chainToks]⟩
+  | (nt, o, p) :: rest, c₀, hc, ht, h => by
+    obtain ⟨hinf, hp, hpp⟩ := h (nt, o, p) (by simp)
+    have ih := canonize_spec regs tb rest (attach regs c₀ nt o p) (attach_canon regs tb c₀ nt o p hc ht hinf hp hpp)
+      (attach_not_tern regs c₀ nt o p) (fun x hx => h x (by simp [hx]))
+    refine ⟨ih.1, ih.2.1, ?_⟩
+    simp only [canonize]
+    rw [ih.2.2]
+    simp [chainToks, attach_flatten, List.append_assoc]
+
+/-- **Every operator sequence is covered**: any chain of operands (primaries: atoms, calls, lists,
+maps, parenthesised expressions, each with optional prefix/postfix operators) joined by infix
+operators, optionally negated, is the token sequence of a canonical expression; by
+`groups_as_written` the parser returns that expression's tree, and by `canonical_reading_unique`
+no other canonical reading exists. -/
+theorem chain_has_canonical_form (regs : Regs) (tb : TableOK regs) (p₀ : CST) (ops : List (Bool × Name × CST))
+    (h₀ : Canon regs p₀) (hp₀ : p₀.isPrimary = true)
+    (h : ∀ x ∈ ops, regs.isInfix x.2.1 = true ∧ Canon regs x.2.2 ∧ x.2.2.isPrimary = true) :
+    ∃ c, Canon regs c ∧ c.flatten = chainToks p₀ ops := by
+  have := canonize_spec regs tb ops p₀ h₀ (primary_shape hp₀).2.2.1 h
+  exact ⟨_, this.1, this.2.2⟩
+
+theorem chain_parses (regs : Regs) (tb : TableOK regs) (lim : Nat) (p₀ : CST) (ops : List (Bool × Name × CST))
+    (h₀ : Canon regs p₀) (hp₀ : p₀.isPrimary = true)
+    (h : ∀ x ∈ ops, regs.isInfix x.2.1 = true ∧ Canon regs x.2.2 ∧ x.2.2.isPrimary = true)
+    (hf : Fits lim (canonize regs p₀ ops)) :
+    parseTokens regs lim (chainToks p₀ ops) = .ok (canonize regs p₀ ops).strip := by
+  have := canonize_spec regs tb ops p₀ h₀ (primary_shape hp₀).2.2.1 h
+  rw [← this.2.2]
+  exact groups_as_written regs tb lim _ this.1 hf
+
+
+/-! ## the clauses of the property, one by one
+
+`a`, `b`, `c`, `x`, `y` are arbitrary canonical operands (`Opnd`: atoms, calls, lists, maps,
+parenthesised expressions, with optional prefix and postfix operators), `e₁ e₂ …` arbitrary
+canonical expressions. Each statement shows the tokens and the tree. -/
+
+/-- a canonical operand -/
+def Opnd (regs : Regs) (a : CST) : Prop := Canon regs a ∧ a.isPrimary = true
+
+theorem Opnd.notTern {regs : Regs} {a : CST} (h : Opnd regs a) : a.isTern = false := (primary_shape h.2).2.2.1
+theorem Opnd.noRoot {regs : Regs} {a : CST} (h : Opnd regs a) : ∀ o', a.root? = some o' → False := by
+  intro o' e; rw [(primary_shape h.2).2.2.2] at e; cases e
+
+section Clauses
+variable (regs : Regs) (tb : TableOK regs) (lim : Nat)
+include tb
+
+/-- a single infix operator -/
+theorem infix_one {a b : CST} {o : Name} (ha : Opnd regs a) (hb : Opnd regs b) (ho : regs.isInfix o = true)
+    (hf : Fits lim (.bin false o a b)) :
+    parseTokens regs lim (a.flatten ++ .op o :: b.flatten) = .ok (.binary o a.strip b.strip) := by
+  have h := groups_as_written regs tb lim (.bin false o a b)
+    ⟨ho, ha.1, hb.1, ha.notTern, hb.notTern, fun o' e => (ha.noRoot o' e).elim, fun o' e => (hb.noRoot o' e).elim⟩ hf
+  simpa [CST.flatten, CST.strip, opToks, wrapNot] using h
+
+/-- **a higher-precedence operator binds before a lower one** (higher one second): `a o₁ b o₂ c = a o₁ (b o₂ c)` -/
+theorem tighter_second_binds_first {a b c : CST} {o₁ o₂ : Name} (ha : Opnd regs a) (hb : Opnd regs b) (hc : Opnd regs c)
+    (h₁ : regs.isInfix o₁ = true) (h₂ : regs.isInfix o₂ = true) (hp : Regs.prec regs o₁ < Regs.prec regs o₂)
+    (hf : Fits lim (.bin false o₁ a (.bin false o₂ b c))) :
+    parseTokens regs lim (a.flatten ++ .op o₁ :: (b.flatten ++ .op o₂ :: c.flatten)) =
+      .ok (.binary o₁ a.strip (.binary o₂ b.strip c.strip)) := by
+  have h := groups_as_written regs tb lim (.bin false o₁ a (.bin false o₂ b c))
+    ⟨h₁, ha.1, ⟨h₂, hb.1, hc.1, hb.notTern, hc.notTern, fun o' e => (hb.noRoot o' e).elim, fun o' e => (hc.noRoot o' e).elim⟩,
+      ha.notTern, rfl, fun o' e => (ha.noRoot o' e).elim, fun o' e => by cases e; exact Or.inl hp⟩ hf
+  simpa [CST.flatten, CST.strip, opToks, wrapNot] using h
+
+/-- **a higher-precedence operator binds before a lower one** (higher one first): `a o₁ b o₂ c = (a o₁ b) o₂ c` -/
+theorem tighter_first_binds_first {a b c : CST} {o₁ o₂ : Name} (ha : Opnd regs a) (hb : Opnd regs b) (hc : Opnd regs c)
+    (h₁ : regs.isInfix o₁ = true) (h₂ : regs.isInfix o₂ = true) (hp : Regs.prec regs o₂ < Regs.prec regs o₁)
+    (hf : Fits lim (.bin false o₂ (.bin false o₁ a b) c)) :
+    parseTokens regs lim (a.flatten ++ .op o₁ :: (b.flatten ++ .op o₂ :: c.flatten)) =
+      .ok (.binary o₂ (.binary o₁ a.strip b.strip) c.strip) := by
+  have h := groups_as_written regs tb lim (.bin false o₂ (.bin false o₁ a b) c)
+    ⟨h₂, ⟨h₁, ha.1, hb.1, ha.notTern, hb.notTern, fun o' e => (ha.noRoot o' e).elim, fun o' e => (hb.noRoot o' e).elim⟩, hc.1,
+      rfl, hc.notTern, fun o' e => by cases e; exact Or.inl hp, fun o' e => (hc.noRoot o' e).elim⟩ hf
+  simpa [CST.flatten, CST.strip, opToks, wrapNot] using h
+
+/-- **equal precedence, left-to-right level** (every calculation operator): `a o₁ b o₂ c = (a o₁ b) o₂ c` -/
+theorem equal_prec_groups_left {a b c : CST} {o₁ o₂ : Name} (ha : Opnd regs a) (hb : Opnd regs b) (hc : Opnd regs c)
+    (h₁ : regs.isInfix o₁ = true) (h₂ : regs.isInfix o₂ = true) (hp : Regs.prec regs o₁ = Regs.prec regs o₂)
+    (hl : Regs.isRight regs o₂ = false) (hf : Fits lim (.bin false o₂ (.bin false o₁ a b) c)) :
+    parseTokens regs lim (a.flatten ++ .op o₁ :: (b.flatten ++ .op o₂ :: c.flatten)) =
+      .ok (.binary o₂ (.binary o₁ a.strip b.strip) c.strip) := by
+  have h := groups_as_written regs tb lim (.bin false o₂ (.bin false o₁ a b) c)
+    ⟨h₂, ⟨h₁, ha.1, hb.1, ha.notTern, hb.notTern, fun o' e => (ha.noRoot o' e).elim, fun o' e => (hb.noRoot o' e).elim⟩, hc.1,
+      rfl, hc.notTern, fun o' e => by cases e; exact Or.inr ⟨hp, hl⟩, fun o' e => (hc.noRoot o' e).elim⟩ hf
+  simpa [CST.flatten, CST.strip, opToks, wrapNot] using h
+
+/-- **equal precedence, right-to-left level** (assignment operators): `a o₁ b o₂ c = a o₁ (b o₂ c)` -/
+theorem equal_prec_groups_right {a b c : CST} {o₁ o₂ : Name} (ha : Opnd regs a) (hb : Opnd regs b) (hc : Opnd regs c)
+    (h₁ : regs.isInfix o₁ = true) (h₂ : regs.isInfix o₂ = true) (hp : Regs.prec regs o₂ = Regs.prec regs o₁)
+    (hr : Regs.isRight regs o₁ = true) (hf : Fits lim (.bin false o₁ a (.bin false o₂ b c))) :
+    parseTokens regs lim (a.flatten ++ .op o₁ :: (b.flatten ++ .op o₂ :: c.flatten)) =
+      .ok (.binary o₁ a.strip (.binary o₂ b.strip c.strip)) := by
+  have h := groups_as_written regs tb lim (.bin false o₁ a (.bin false o₂ b c))
+    ⟨h₁, ha.1, ⟨h₂, hb.1, hc.1, hb.notTern, hc.notTern, fun o' e => (hb.noRoot o' e).elim, fun o' e => (hc.noRoot o' e).elim⟩,
+      ha.notTern, rfl, fun o' e => (ha.noRoot o' e).elim, fun o' e => by cases e; exact Or.inr ⟨hp, hr⟩⟩ hf
+  simpa [CST.flatten, CST.strip, opToks, wrapNot] using h
+
+/-- **prefix operators bind tighter than every infix operator**: `pre a o b = (pre a) o b`, `a o pre b = a o (pre b)` -/
+theorem prefix_tighter_than_infix {a b : CST} {pre o : Name} (ha : Opnd regs a) (hb : Opnd regs b)
+    (hpre : regs.isPrefix pre = true) (ho : regs.isInfix o = true)
+    (hf : Fits lim (.bin false o (.unary pre a) (.unary pre b))) :
+    parseTokens regs lim (.op pre :: (a.flatten ++ .op o :: .op pre :: b.flatten)) =
+      .ok (.binary o (.unary pre a.strip) (.unary pre b.strip)) := by
+  have h := groups_as_written regs tb lim (.bin false o (.unary pre a) (.unary pre b))
+    ⟨ho, ⟨hpre, ha.2, ha.1⟩, ⟨hpre, hb.2, hb.1⟩, rfl, rfl, fun o' e => (by cases e), fun o' e => (by cases e)⟩ hf
+  simpa [CST.flatten, CST.strip, opToks, wrapNot] using h
+
+/-- **a postfix operator binds tighter than a prefix one**: `pre a post = pre (a post)` -/
+theorem postfix_tighter_than_prefix {a : CST} {pre post : Name} (ha : Canon regs a) (hpa : a.postfixable = true)
+    (hpre : regs.isPrefix pre = true) (hpost : regs.isPostfix post = true) (hf : Fits lim (.unary pre (.postfix a post))) :
+    parseTokens regs lim (.op pre :: (a.flatten ++ [.op post])) = .ok (.unary pre (.postfix a.strip post)) := by
+  have h := groups_as_written regs tb lim (.unary pre (.postfix a post)) ⟨hpre, rfl, hpost, hpa, ha⟩ hf
+  simpa [CST.flatten, CST.strip] using h
+
+/-- … and both bind tighter than any infix operator: `pre a post o b = (pre (a post)) o b` -/
+theorem prefix_postfix_then_infix {a b : CST} {pre post o : Name} (ha : Canon regs a) (hpa : a.postfixable = true) (hb : Opnd regs b)
+    (hpre : regs.isPrefix pre = true) (hpost : regs.isPostfix post = true) (ho : regs.isInfix o = true)
+    (hf : Fits lim (.bin false o (.unary pre (.postfix a post)) b)) :
+    parseTokens regs lim (.op pre :: (a.flatten ++ .op post :: .op o :: b.flatten)) =
+      .ok (.binary o (.unary pre (.postfix a.strip post)) b.strip) := by
+  have h := groups_as_written regs tb lim (.bin false o (.unary pre (.postfix a post)) b)
+    ⟨ho, ⟨hpre, rfl, hpost, hpa, ha⟩, hb.1, rfl, hb.notTern, fun o' e => (by cases e), fun o' e => (hb.noRoot o' e).elim⟩ hf
+  simpa [CST.flatten, CST.strip, opToks, wrapNot] using h
+
+/-- **`x not OP y` means `not (x OP y)`** -/
+theorem not_form {a b : CST} {o : Name} (ha : Opnd regs a) (hb : Opnd regs b) (ho : regs.isInfix o = true)
+    (hf : Fits lim (.bin true o a b)) :
+    parseTokens regs lim (a.flatten ++ tNot :: .op o :: b.flatten) = .ok (.unary notName (.binary o a.strip b.strip)) := by
+  have h := groups_as_written regs tb lim (.bin true o a b)
+    ⟨ho, ha.1, hb.1, ha.notTern, hb.notTern, fun o' e => (ha.noRoot o' e).elim, fun o' e => (hb.noRoot o' e).elim⟩ hf
+  simpa [CST.flatten, CST.strip, opToks, wrapNot] using h
+
+/-- **… with OP keeping its own precedence** (tighter OP on the right): `a o₁ b not o₂ c = a o₁ (not (b o₂ c))` -/
+theorem not_form_keeps_precedence_right {a b c : CST} {o₁ o₂ : Name} (ha : Opnd regs a) (hb : Opnd regs b) (hc : Opnd regs c)
+    (h₁ : regs.isInfix o₁ = true) (h₂ : regs.isInfix o₂ = true) (hp : Regs.prec regs o₁ < Regs.prec regs o₂)
+    (hf : Fits lim (.bin false o₁ a (.bin true o₂ b c))) :
+    parseTokens regs lim (a.flatten ++ .op o₁ :: (b.flatten ++ tNot :: .op o₂ :: c.flatten)) =
+      .ok (.binary o₁ a.strip (.unary notName (.binary o₂ b.strip c.strip))) := by
+  have h := groups_as_written regs tb lim (.bin false o₁ a (.bin true o₂ b c))
+    ⟨h₁, ha.1, ⟨h₂, hb.1, hc.1, hb.notTern, hc.notTern, fun o' e => (hb.noRoot o' e).elim, fun o' e => (hc.noRoot o' e).elim⟩,
+      ha.notTern, rfl, fun o' e => (ha.noRoot o' e).elim, fun o' e => by cases e; exact Or.inl hp⟩ hf
+  simpa [CST.flatten, CST.strip, opToks, wrapNot] using h
+
+/-- (looser OP on the right): `a o₁ b not o₂ c = not ((a o₁ b) o₂ c)` -/
+theorem not_form_keeps_precedence_left {a b c : CST} {o₁ o₂ : Name} (ha : Opnd regs a) (hb : Opnd regs b) (hc : Opnd regs c)
+    (h₁ : regs.isInfix o₁ = true) (h₂ : regs.isInfix o₂ = true) (hp : Regs.prec regs o₂ < Regs.prec regs o₁)
+    (hf : Fits lim (.bin true o₂ (.bin false o₁ a b) c)) :
+    parseTokens regs lim (a.flatten ++ .op o₁ :: (b.flatten ++ tNot :: .op o₂ :: c.flatten)) =
+      .ok (.unary notName (.binary o₂ (.binary o₁ a.strip b.strip) c.strip)) := by
+  have h := groups_as_written regs tb lim (.bin true o₂ (.bin false o₁ a b) c)
+    ⟨h₂, ⟨h₁, ha.1, hb.1, ha.notTern, hb.notTern, fun o' e => (ha.noRoot o' e).elim, fun o' e => (hb.noRoot o' e).elim⟩, hc.1,
+      rfl, hc.notTern, fun o' e => by cases e; exact Or.inl hp, fun o' e => (hc.noRoot o' e).elim⟩ hf
+  simpa [CST.flatten, CST.strip, opToks, wrapNot] using h
+
+/-- **the conditional binds looser than every infix operator**, in all three positions:
+`a o b ? x o y : u o v = (a o b) ? (x o y) : (u o v)` -/
+theorem conditional_loosest {a b x y u v : CST} {o : Name} (ha : Opnd regs a) (hb : Opnd regs b) (hx : Opnd regs x) (hy : Opnd regs y)
+    (hu : Opnd regs u) (hv : Opnd regs v) (ho : regs.isInfix o = true)
+    (hf : Fits lim (.tern (.bin false o a b) (.bin false o x y) (.bin false o u v))) :
+    parseTokens regs lim (a.flatten ++ .op o :: (b.flatten ++ tQ :: (x.flatten ++ .op o :: (y.flatten ++ tColon :: (u.flatten ++ .op o :: v.flatten))))) =
+      .ok (.ternary (.binary o a.strip b.strip) (.binary o x.strip y.strip) (.binary o u.strip v.strip)) := by
+  have mk : ∀ {p q : CST}, Opnd regs p → Opnd regs q → Canon regs (.bin false o p q) := fun hp hq =>
+    ⟨ho, hp.1, hq.1, hp.notTern, hq.notTern, fun o' e => (hp.noRoot o' e).elim, fun o' e => (hq.noRoot o' e).elim⟩
+  have h := groups_as_written regs tb lim (.tern (.bin false o a b) (.bin false o x y) (.bin false o u v))
+    ⟨mk ha hb, rfl, mk hx hy, mk hu hv⟩ hf
+  simpa [CST.flatten, CST.strip, opToks, wrapNot] using h
+
+/-- **the conditional nests to the right**: `c ? a : b ? x : y = c ? a : (b ? x : y)`, for arbitrary
+canonical expressions in the branch positions -/
+theorem conditional_nests_right {c b a x y : CST} (hc : Canon regs c) (hct : c.isTern = false) (hb : Canon regs b) (hbt : b.isTern = false)
+    (ha : Canon regs a) (hx : Canon regs x) (hy : Canon regs y) (hf : Fits lim (.tern c a (.tern b x y))) :
+    parseTokens regs lim (c.flatten ++ tQ :: (a.flatten ++ tColon :: (b.flatten ++ tQ :: (x.flatten ++ tColon :: y.flatten)))) =
+      .ok (.ternary c.strip a.strip (.ternary b.strip x.strip y.strip)) := by
+  have h := groups_as_written regs tb lim (.tern c a (.tern b x y)) ⟨hc, hct, ha, hb, hbt, hx, hy⟩ hf
+  simpa [CST.flatten, CST.strip] using h
+
+/-- **parentheses override all of this**: `(e₁) o (e₂)` has `e₁` and `e₂` as operands whatever they are -/
+theorem parens_override {e₁ e₂ : CST} {o : Name} (h₁ : Canon regs e₁) (h₂ : Canon regs e₂) (ho : regs.isInfix o = true)
+    (hf : Fits lim (.bin false o (.paren e₁) (.paren e₂))) :
+    parseTokens regs lim (tOpen :: (e₁.flatten ++ tClose :: .op o :: tOpen :: (e₂.flatten ++ [tClose]))) =
+      .ok (.binary o e₁.strip e₂.strip) := by
+  have h := groups_as_written regs tb lim (.bin false o (.paren e₁) (.paren e₂))
+    ⟨ho, h₁, h₂, rfl, rfl, fun o' e => (by cases e), fun o' e => (by cases e)⟩ hf
+  simpa [CST.flatten, CST.strip, opToks, wrapNot] using h
+
+/-- … including under prefix and postfix operators: `pre (e) post = pre ((e) post)` -/
+theorem parens_under_prefix_postfix {e : CST} {pre post : Name} (he : Canon regs e)
+    (hpre : regs.isPrefix pre = true) (hpost : regs.isPostfix post = true) (hf : Fits lim (.unary pre (.postfix (.paren e) post))) :
+    parseTokens regs lim (.op pre :: tOpen :: (e.flatten ++ [tClose, .op post])) = .ok (.unary pre (.postfix e.strip post)) := by
+  have h := groups_as_written regs tb lim (.unary pre (.postfix (.paren e) post)) ⟨hpre, rfl, hpost, rfl, he⟩ hf
+  simpa [CST.flatten, CST.strip] using h
+
+end Clauses
+
+/-! ## the hypotheses are satisfiable: one of the property's own examples, through the theorem
+
+`1 + 2 * 3 not == 7` over the built-in table is `not ((1 + (2 * 3)) == 7)` — obtained from
+`groups_as_written_builtin`, not by running the model. -/
+
+def d (n : Nat) : Dec := ⟨false, n, 0⟩
+def exampleCst : CST :=
+  .bin true ['=', '='] (.bin false ['+'] (.atom (.num (d 1))) (.bin false ['*'] (.atom (.num (d 2))) (.atom (.num (d 3))))) (.atom (.num (d 7)))
+
+theorem example_canon : Canon Regs.builtin exampleCst := by
+  refine ⟨by decide, ⟨by decide, trivial, ⟨by decide, trivial, trivial, rfl, rfl, ?_, ?_⟩, rfl, rfl, ?_, ?_⟩, trivial, rfl, rfl, ?_, ?_⟩
+  all_goals (intro o' e; first | cases e | skip)
+  all_goals first | (unfold okLeft; decide) | (unfold okRight; decide)
+
+theorem example_fits : Fits maxDepth exampleCst := by unfold Fits; decide
+
+theorem example_parse :
+    parseTokens Regs.builtin maxDepth
+      [.num (d 1), .op ['+'], .num (d 2), .op ['*'], .num (d 3), .op ['n', 'o', 't'], .op ['=', '='], .num (d 7)] =
+    .ok (.unary notName (.binary ['=', '='] (.binary ['+'] (.lit (.num (d 1))) (.binary ['*'] (.lit (.num (d 2))) (.lit (.num (d 3)))))
+      (.lit (.num (d 7))))) :=
+  groups_as_written_builtin exampleCst example_canon example_fits
+
 end EE.Props.C02
